@@ -401,6 +401,8 @@ fn run_text(out : &mut Out, kind : &str, text : &str, expected : Option<&Vec<(Ve
                 ParseError::UnexpectedExtraColon(_, n) => *n < 1 || *n > lines.len() || lines[*n - 1] != ":",
                 ParseError::UnexpectedEndOfFileMidTargets(_, n) | ParseError::UnexpectedEndOfFileMidSources(_, n) |
                 ParseError::UnexpectedEndOfFileMidCommand(_, n) => *n != lines.len() + 1,
+                // a contradiction is between an earlier and a later mention of one name: lines named in file order
+                ParseError::BundleError(_, bundle::ParseError::Contradiction(a, b)) => a >= b,
                 ParseError::BundleError(_, _) => false,
             };
             if bad
